@@ -288,11 +288,12 @@ PROPS = {
                        "directive definitions and argument lists as maps / sequences keyed by the names' text) that every lookup / lookup_ref / lookup_field / lookup_input_field / lookup_enum_value of the five "
                        "coordinate kinds returns Ok iff the schema has an element with exactly those names, returns exactly that element (the entry of that map under that key; the first argument definition "
                        "with that name), and otherwise an error naming the missing component. Bounded stand-ins (Kani, short strings over a class alphabet, not counted as proved): the same iff on the real "
-                       "code including the real Name::try_from, and SchemaCoordinate::from_str's dispatch.",
+                       "code including the real Name::try_from. SchemaCoordinate::from_str (the dispatch `.map(..).or_else(..)` over the five parsers; closures kept, their contracts spelled out by a listed rewrite; Result::or_else by its std definition) "
+                       "is Ok exactly for the five forms and returns the variant of that form with those components, for every string.",
         "assumptions": ["str::split_once(char) / strip_prefix(char) behave as documented (external_body free functions after a listed method->function rewrite)",
                         "&str values with equal characters are equal (axiom_str_ext; what a string-literal pattern compares)",
                         "Name::try_from(&str) is Ok iff the Name grammar holds and keeps the text (proved for Name::new in unit `name`; TryFrom<&str> forwards to it)"],
-        "not_decided": ["SchemaCoordinate::from_str dispatch beyond the bounded harnesses (closures: .map(..).or_else(..))", "Display impls beyond the syntactic check of their format strings",
+        "not_decided": ["Display impls beyond the syntactic check of their format strings",
                         "SchemaCoordinate::lookup's dispatch over the five kinds (`.map(Into::into)` over From impls: trait function values, outside Verus)",
                         "IndexMap::get / argument_by_name behave as maps / first-match search keyed by the name's text (shim contracts)"],
     },
